@@ -62,7 +62,7 @@ func (c StepCase) String() string {
 	return fmt.Sprintf("%s parked at pass %d of %s", c.Victim, c.Skip+1, c.Site)
 }
 
-var StepVictims = []string{"join", "leave", "switch", "delete", "lastleave", "create", "compadd-vs-delete", "compadd-vs-leave", "action-vs-delete", "action-vs-leave", "action-vs-action", "compupd-vs-unsub", "compadd-vs-compadd", "customto-vs-customto", "sub-vs-sub"}
+var StepVictims = []string{"join", "leave", "switch", "delete", "lastleave", "create", "compadd-vs-delete", "compadd-vs-leave", "action-vs-delete", "action-vs-leave", "action-vs-action", "compupd-vs-unsub", "compadd-vs-compadd", "customto-vs-customto", "sub-vs-sub", "join-vs-lastleave"}
 
 // stepSiteOK: points on the victim's own path; points that every connection
 // or the frame worker pass all the time would park somebody else.
@@ -91,6 +91,8 @@ type stepEnv struct {
 	oldUUID      string
 	t, t2        uint32
 	t3           uint32 // a type nobody is subscribed to (sub-vs-sub)
+	t4, t5       uint32 // types whose only subscriber is the victim (t4) / the scripted leaver (t5)
+	subV, subL   bool   // those subscriptions were made
 	e0, eDel     uint32
 	vNP, vP      uint32 // victim's non-persistent and persistent entity
 	base         float64
@@ -145,6 +147,10 @@ func stepSetup(p *sut.Proc, victim string) *stepEnv {
 	en.t, err = m.AddType("step-type")
 	must(err)
 	en.t2, err = m.AddType("step-type-2")
+	must(err)
+	en.t4, err = m.AddType("step-type-4")
+	must(err)
+	en.t5, err = m.AddType("step-type-5")
 	must(err)
 	en.e0, err = m.AddEntity(true, 1)
 	must(err)
@@ -227,6 +233,17 @@ func stepSetup(p *sut.Proc, victim string) *stepEnv {
 		must(err)
 		_, err = o.Subscribe(en.t)
 		must(err)
+	case "join-vs-lastleave":
+		// a second session with a single member, which leaves while the victim joins it
+		o := scen.MustDial(p, "vod")
+		en.o = o
+		_, _, err = o.Join("")
+		must(err)
+		en.oldSID, en.oldUUID = o.SID, o.UUID
+		_, err = o.AddEntity(true, 11)
+		must(err)
+		_, err = o.AddEntity(false, 12)
+		must(err)
 	case "create":
 	case "lastleave":
 		_, _, err = v.Join("")
@@ -257,6 +274,25 @@ func stepSetup(p *sut.Proc, victim string) *stepEnv {
 		en.oldSID, en.oldUUID = v.SID, v.UUID
 		_, err = v.AddEntity(false, 3)
 		must(err)
+	}
+	// subscriptions that must end with their only holder: the victim's (it may
+	// leave or be aborted) and the scripted leaver's
+	if v.SID == en.sid && victim != "sub-vs-sub" {
+		a, err := v.Subscribe(en.t4)
+		must(err)
+		en.subV = a != nil && a.Type == d.TSubResp
+	}
+	var leaver *scen.C
+	switch {
+	case victim == "join":
+		leaver = en.x
+	case strings.HasSuffix(victim, "-vs-leave"):
+		leaver = en.o
+	}
+	if leaver != nil {
+		a, err := leaver.Subscribe(en.t5)
+		must(err)
+		en.subL = a != nil && a.Type == d.TSubResp
 	}
 	for _, c := range en.all() {
 		_, err := c.Barrier()
@@ -306,6 +342,8 @@ func (en *stepEnv) fire(victim string) {
 		must(v.Send(&hagallpb.ParticipantJoinRequest{Type: d.TJoinReq, Timestamp: d.NewTag(), RequestId: v.NextReqID(), SessionId: en.sid}))
 	case "create":
 		must(v.Send(&hagallpb.ParticipantJoinRequest{Type: d.TJoinReq, Timestamp: d.NewTag(), RequestId: v.NextReqID()}))
+	case "join-vs-lastleave":
+		must(v.Send(&hagallpb.ParticipantJoinRequest{Type: d.TJoinReq, Timestamp: d.NewTag(), RequestId: v.NextReqID(), SessionId: en.oldSID}))
 	case "leave", "lastleave":
 		v.Close()
 	case "compadd-vs-delete", "compadd-vs-leave":
@@ -362,6 +400,10 @@ func (en *stepEnv) interfere(victim string) (err error) {
 			return
 		}
 		_, _, err = en.c2.Join("")
+		return
+	case "join-vs-lastleave":
+		en.o.Close()
+		departed(en.o, "the only other member of the session being joined")
 		return
 	case "lastleave":
 		en.n2 = dial()
@@ -703,7 +745,7 @@ func StepRun(p *sut.Proc, c StepCase) (res *StepResult) {
 		gone[m], gone[w] = true, true
 	case "join":
 		gone[en.x] = true
-	case "compadd-vs-leave", "action-vs-leave":
+	case "compadd-vs-leave", "action-vs-leave", "join-vs-lastleave":
 		gone[en.o] = true
 	}
 	if c.Victim2 == "leave2" {
@@ -730,6 +772,19 @@ func StepRun(p *sut.Proc, c StepCase) (res *StepResult) {
 			return
 		}
 		barrierAll()
+	}
+	if c.Victim == "join-vs-lastleave" {
+		live := en.judgeJoinVsLastLeave(c, res, gone)
+		if len(res.Findings) > 0 || res.Inconclusive != "" {
+			return
+		}
+		res.Findings = append(res.Findings, registryQuiescent(p, en.base, live, "step-through/"+c.Victim)...)
+		closed = true
+		en.close()
+		if len(res.Findings) == 0 {
+			res.Findings = append(res.Findings, registryQuiescent(p, en.base, 0, "step-through/"+c.Victim+"/after-all-left")...)
+		}
+		return
 	}
 	// the victim's answer
 	if !c.Abort && (c.Victim == "join" || c.Victim == "switch" || c.Victim == "create") {
@@ -851,7 +906,7 @@ func StepRun(p *sut.Proc, c StepCase) (res *StepResult) {
 				}
 			}
 			if !seen {
-				res.Findings = append(res.Findings, sf([]string{"C11", "C07"}, "pose/never-relayed", c, "%s moved its entity %d; four frames later the witness has not been relayed the pose: the member's pending updates are no longer flushed", ps.who, ps.e))
+				res.Findings = append(res.Findings, sf([]string{"C11", "C07", "C09"}, "pose/never-relayed", c, "%s moved its entity %d; four frames later the witness has not been relayed the pose: the member's pending updates are no longer flushed", ps.who, ps.e))
 			}
 		}
 		if len(res.Findings) > 0 {
@@ -941,6 +996,43 @@ func StepRun(p *sut.Proc, c StepCase) (res *StepResult) {
 	}
 	if len(res.Findings) > 0 {
 		return
+	}
+	// --- C06: "its component-type subscriptions end". Component adds are
+	// relayed (to everybody) exactly while the type has a subscriber: after the
+	// only subscriber of a type has gone, an add of that type reaches no one.
+	if !gone[m] && !gone[w] && c.Victim != "create" && c.Victim != "lastleave" {
+		type ended struct {
+			t   uint32
+			who string
+		}
+		var ends []ended
+		if en.subV && gone[v] {
+			ends = append(ends, ended{en.t4, "the victim"})
+		}
+		if en.subL && ((en.x != nil && gone[en.x]) || (en.o != nil && gone[en.o])) {
+			ends = append(ends, ended{en.t5, "the member that left while the victim was parked"})
+		}
+		for _, x := range ends {
+			a, err := m.AddComp(x.t, en.e0, "after-departure")
+			must(err)
+			if a == nil || a.Type != d.TCompAddResp {
+				panic(fmt.Sprintf("the subscription probe's add was not accepted: %v", a))
+			}
+			barrierAll()
+			for _, cl := range en.all() {
+				if gone[cl] || cl.SID != en.sid {
+					continue
+				}
+				for _, e := range cl.LogCopy() {
+					if b, ok := e.M.(*hagallpb.EntityComponentAddBroadcast); ok && b.EntityComponent.GetEntityComponentTypeId() == x.t {
+						res.Findings = append(res.Findings, sf([]string{"C06", "C13"}, "departure/subscription-survives", c, "%s was the only subscriber of component type %d and has left the session; a later add of that type is still relayed (to participant %d): the leaver's subscription did not end", x.who, x.t, cl.PID))
+					}
+				}
+			}
+			if len(res.Findings) > 0 {
+				return
+			}
+		}
 	}
 	res.Findings = append(res.Findings, registryQuiescent(p, en.base, live, "step-through/"+c.Victim)...)
 	closed = true
@@ -1227,4 +1319,121 @@ func wedgeOrInconclusive(p *sut.Proc, c StepCase, what string) *check.Finding {
 		return sf([]string{"C09", "C08", "C06"}, "liveness/wedged", c, "%s; goroutines parked in relay code across two dumps: %v", what, stuck)
 	}
 	return &check.Finding{Clause: "inconclusive", Trigger: "step-through/" + c.Victim, Detail: what + " (no goroutine parked in relay code: not decided)"}
+}
+
+// judgeJoinVsLastLeave: the victim joined, by id, a session whose only member
+// left at the same time (C07: "a join that is answered with success always
+// leaves the participant in a live session that others can find under the
+// returned id"; a live session relays its members' pose updates, C11).
+// Returns the number of live sessions.
+func (en *stepEnv) judgeJoinVsLastLeave(c StepCase, res *StepResult, gone map[*scen.C]bool) (live int) {
+	p, v := en.p, en.v
+	live = 1 // the bystander session of the mutator and the witness
+	ended := func(why string) {
+		old, err := scen.Probe(p, en.oldSID, "vod")
+		must(err)
+		if old.Found && old.Join.SessionUuid == en.oldUUID {
+			res.Findings = append(res.Findings, sf([]string{"C07", "C06"}, "registry/ended-session-still-findable", c, "%s, and its only member has left: session %s (uuid %s) can still be joined", why, en.oldSID, en.oldUUID))
+		}
+	}
+	if c.Abort {
+		ended("the victim's connection was reset while it was joining")
+		return
+	}
+	ok, refused := 0, 0
+	for _, e := range v.LogCopy() {
+		switch x := e.M.(type) {
+		case *hagallpb.ParticipantJoinResponse:
+			v.PID, v.SID, v.UUID = x.ParticipantId, x.SessionId, x.SessionUuid
+			ok++
+		case *hagallpb.ErrorResponse:
+			if x.RequestId != 0 {
+				refused++
+			}
+		}
+	}
+	if ok+refused != 1 {
+		res.Findings = append(res.Findings, sf([]string{"C04", "C07"}, "step/answer-exactly-once", c, "the victim's join got %d success and %d error answers; its stream: %v", ok, refused, v.LogCopy()))
+		return
+	}
+	if refused == 1 {
+		ended("the victim's join by id was refused")
+		return
+	}
+	live = 2
+	if v.SID != en.oldSID || v.UUID != en.oldUUID {
+		res.Findings = append(res.Findings, sf([]string{"C07", "C10"}, "join/orphaned", c, "the victim asked for session %s (uuid %s) and was answered with session %s uuid %s", en.oldSID, en.oldUUID, v.SID, v.UUID))
+		return
+	}
+	snap, err := scen.Probe(p, v.SID, "vod")
+	must(err)
+	switch {
+	case !snap.Found:
+		res.Findings = append(res.Findings, sf([]string{"C07"}, "join/orphaned", c, "the victim was answered with a successful join (session %s uuid %s participant %d) and is still connected, but a probe joining by that id gets error %d", v.SID, v.UUID, v.PID, snap.Code))
+		return
+	case snap.Join.SessionUuid != v.UUID:
+		res.Findings = append(res.Findings, sf([]string{"C07", "C10"}, "join/orphaned", c, "the victim is in session %s uuid %s but that id now names uuid %s", v.SID, v.UUID, snap.Join.SessionUuid))
+		return
+	}
+	found := false
+	for _, pp := range snap.State.GetParticipants() {
+		if pp.Id == v.PID {
+			found = true
+		}
+	}
+	if !found {
+		res.Findings = append(res.Findings, sf([]string{"C07", "C01"}, "join/participant-missing", c, "the victim (participant %d of session %s) is not among the participants handed to a probe: %v", v.PID, v.SID, snap.State.GetParticipants()))
+		return
+	}
+	// what the victim was handed plus what it was relayed (the other member's
+	// departure) is what a probe is handed
+	if _, err := v.Barrier(); err != nil {
+		panic(err)
+	}
+	if diff := foldLog(v).Diff(stateFromProbe(snap), "vod"); len(diff) > 0 {
+		res.Findings = append(res.Findings, sf([]string{"C06", "C01"}, "view/diverged-after-step", c, "the view of the victim, which joined a session while its only member left, differs from the state handed to a probe: %s\n   its stream: %v", strings.Join(diff, "; "), v.LogCopy()))
+		return
+	}
+	// the session is live: a newcomer is relayed the victim's pose updates
+	n := scen.MustDial(p, "vod")
+	en.extra = append(en.extra, n)
+	jr, _, err := n.Join(v.SID)
+	must(err)
+	if jr == nil || jr.SessionUuid != v.UUID {
+		res.Findings = append(res.Findings, sf([]string{"C07"}, "join/orphaned", c, "a newcomer cannot join the victim's session %s (uuid %s): %v", v.SID, v.UUID, jr))
+		return
+	}
+	e, err := v.AddEntity(true, 50)
+	must(err)
+	if e == 0 {
+		res.Findings = append(res.Findings, sf([]string{"C07", "C05"}, "join/participant-missing", c, "the victim, answered with a successful join of %s, cannot add an entity there", v.SID))
+		return
+	}
+	_, err = v.Pose(e, 7100)
+	must(err)
+	if _, err := v.Barrier(); err != nil {
+		panic(err)
+	}
+	if ok, reason, err := p.WaitTicks(v.SID, 4, 10*time.Second); err != nil || !ok {
+		// no frame in ten seconds; does the bystander session's worker tick?
+		if ok2, _, err2 := p.WaitTicks(en.sid, 4, 10*time.Second); err2 == nil && ok2 {
+			res.Findings = append(res.Findings, sf([]string{"C07", "C11"}, "session/frame-worker-dead", c, "the victim joined session %s while its only member left; the session is live (joinable, the victim is its member) but its frame worker made no progress in 10 s (%s) while another session's did: pose and component updates are never relayed there", v.SID, reason))
+			return
+		}
+		res.Inconclusive = fmt.Sprintf("%s: frame barrier failed: %s %v", c, reason, err)
+		return
+	}
+	if _, err := n.Barrier(); err != nil {
+		panic(err)
+	}
+	seen := false
+	for _, ev := range n.LogCopy() {
+		if pb, ok := ev.M.(*hagallpb.EntityUpdatePoseBroadcast); ok && pb.EntityId == e && pb.Pose.GetPx() == 7100 {
+			seen = true
+		}
+	}
+	if !seen {
+		res.Findings = append(res.Findings, sf([]string{"C11", "C07", "C09"}, "pose/never-relayed", c, "the victim joined session %s while its only member left and then moved its entity %d; four frames later a newcomer has not been relayed the pose", v.SID, e))
+	}
+	return
 }
